@@ -491,3 +491,27 @@ package ro
 
 //@ loop detachOn$1$1$3#0
 //@   iteration emits chrecv.ch, destination.ANY(received.A)
+
+// ---------------------------------------------------------------------------
+// operator_combining.go: multi-source operators (C05). Each callback is verified from an arbitrary state
+// satisfying the invariant, so the result holds for every sequential interleaving of whole callbacks.
+// ---------------------------------------------------------------------------
+
+//@ operator MergeAll
+//@   props C05 C09
+//@   note live = number of inner sources subscribed and not yet completed; outerLive = 1 until the outer observable completes
+//@   ghost outerLive int = 1
+//@   ghost live int = 0
+//@   track source.SubscribeWithContext
+//@   inv subscriptionsCount == outerLive + live && live >= 0 && (outerLive == 0 || outerLive == 1)
+//@   inv outerLive == 0 ==> parentCtx != nil
+//@   on next@sources(ctx, source) : emits source.SubscribeWithContext(ctx, _) ; live' = live + 1
+//@   on error@sources(ctx, err) : emits Error(ctx, err)
+//@   on complete@sources(ctx) when live == 0 : emits Complete(ctx)
+//@   on complete@sources(ctx) when live != 0 : emits ; outerLive' = 0
+//@   on next@source(ctx, value) : emits Next(ctx, value)
+//@   on error@source(ctx, err) : emits Error(ctx, err)
+//@   on complete@source(ctx) when outerLive == 0 && live == 1 : emits Complete(parentCtx)
+//@   on complete@source(ctx) when !(outerLive == 0 && live == 1) : emits ; live' = live - 1
+//@   given complete@sources : outerLive == 1
+//@   given complete@source : live >= 1
